@@ -217,40 +217,53 @@ func translate(fd *ast.FuncDecl, generated bool) wiring {
 		guard = true
 		body = body[1:]
 	}
-	if generated {
-		if len(body) != 2 {
-			fail("method %s: unexpected statements in the generated body", m)
-		}
-		as, ok := body[0].(*ast.AssignStmt)
-		if !ok || len(as.Lhs) != 1 || len(as.Rhs) != 1 {
-			fail("method %s: expected `clone := gerror.CloneBase(...)`", m)
-		}
-		cv, _ := as.Lhs[0].(*ast.Ident)
-		w = cloneCall(m, as.Rhs[0], recv, role)
-		ret, ok := body[1].(*ast.ReturnStmt)
-		if !ok || len(ret.Results) != 1 {
-			fail("method %s: expected `return e.toPrimaryType(clone)`", m)
-		}
-		rc, ok := ret.Results[0].(*ast.CallExpr)
+	// toPrimary recognises `recv.toPrimaryType(x)` and returns x.
+	toPrimary := func(e ast.Expr) ast.Expr {
+		rc, ok := e.(*ast.CallExpr)
 		if !ok || selName(rc.Fun) != "toPrimaryType" || len(rc.Args) != 1 {
-			fail("method %s: expected `return e.toPrimaryType(clone)`", m)
+			fail("method %s: expected `return %s.toPrimaryType(clone)`", m, recv)
 		}
 		if sx, ok := rc.Fun.(*ast.SelectorExpr); !ok || selName(sx.X) != recv {
 			fail("method %s: toPrimaryType is not called on the receiver", m)
 		}
-		if a, ok := rc.Args[0].(*ast.Ident); !ok || cv == nil || a.Name != cv.Name {
-			fail("method %s: toPrimaryType is not applied to the clone", m)
-		}
-	} else {
-		if len(body) != 1 {
-			fail("method %s: unexpected statements in the body", m)
-		}
+		return rc.Args[0]
+	}
+	// accepted shapes (all mean the same):
+	//   [generated]  v := CloneBase(...); return recv.toPrimaryType(v)   |   return recv.toPrimaryType(CloneBase(...))
+	//   [base]       return CloneBase(...)                               |   v := CloneBase(...); return v
+	var call ast.Expr
+	switch len(body) {
+	case 1:
 		ret, ok := body[0].(*ast.ReturnStmt)
 		if !ok || len(ret.Results) != 1 {
-			fail("method %s: expected `return CloneBase(...)`", m)
+			fail("method %s: expected a single return", m)
 		}
-		w = cloneCall(m, ret.Results[0], recv, role)
+		call = ret.Results[0]
+		if generated {
+			call = toPrimary(call)
+		}
+	case 2:
+		as, ok := body[0].(*ast.AssignStmt)
+		if !ok || as.Tok != token.DEFINE || len(as.Lhs) != 1 || len(as.Rhs) != 1 {
+			fail("method %s: expected `v := CloneBase(...)`", m)
+		}
+		cv, _ := as.Lhs[0].(*ast.Ident)
+		call = as.Rhs[0]
+		ret, ok := body[1].(*ast.ReturnStmt)
+		if !ok || len(ret.Results) != 1 {
+			fail("method %s: expected a return after the CloneBase call", m)
+		}
+		res := ret.Results[0]
+		if generated {
+			res = toPrimary(res)
+		}
+		if a, ok := res.(*ast.Ident); !ok || cv == nil || a.Name != cv.Name {
+			fail("method %s: the result is not the clone", m)
+		}
+	default:
+		fail("method %s: unexpected statements in the body", m)
 	}
+	w = cloneCall(m, call, recv, role)
 	w.guard = guard
 	return w
 }
